@@ -56,6 +56,8 @@ class MarkovCheck(object):
                 c['tmax'] = r.choice(['inf', 'inf', c['tmin'] + 1.0, c['tmin'] + 0.2, c['tmin'] + 4])
             else:
                 c['tmax'] = r.choice([c['tmin'] + 1.0, c['tmin'] + 0.2, c['tmin'] + 3, c['tmin'] + 6])
+            if c['tmin'] < 0 and r.random() < 0.3:
+                c['tmax'] = r.choice([0, 0.0])        # horizon exactly zero (falsy) after a negative start
             c['kind'] = 'e2' if k % 2 == 0 else 'fast'
             c['seed'] = cs
             cases.append(c)
